@@ -63,6 +63,7 @@ class Tracker:
 
 class C15(Prop):
     id = 'C15'
+    extracted = True      # schema / row comprehensions of rename, toDF, drop, union regenerated from the current source (Extracted/EquivC15.lean)
     quick_cases = 1500
     thorough_cases = 25000
     quick_budget_s = 75
@@ -297,6 +298,8 @@ class C15(Prop):
             types = types[:len(names)]
             rows = [[self.small(rng, t) if rng.random() < .6 else v for v, t in zip(r, types)] for r in rows]
             src = {'names': names, 'types': types, 'rows': [[G.sv(v) for v in r[:len(names)]] for r in rows], 'parts': rng.randint(1, 3)}
+            src = self.pick_via(rng, src)
+            names, types = src['names'], src['types']
             tr = Tracker(names, types, len(rows))
         ops = []
         for _ in range(rng.choice([1, 2, 2, 3, 3, 4])):
@@ -307,6 +310,33 @@ class C15(Prop):
                 continue
             ops.append(self.gen_op(rng, tr))
         return {'src': src, 'ops': ops}
+
+    @staticmethod
+    def pick_via(rng, src):
+        """other ways of handing the same table to createDataFrame: a list of Row objects with an inferred schema - all with
+        the same fields ('rows') or each lacking some of the fields whose value is null ('hetero': the schema is the union
+        of the rows' fields in order of first appearance, Row(**kw) sorting its fields by name) - or tuples with a list of
+        column names ('names'). The table is stored in the column order the resulting frame must have."""
+        names, rows = src['names'], src['rows']
+        if not rows or rng.random() > .3:
+            return src
+        via = rng.choice(['rows', 'hetero', 'hetero', 'names'])
+        if via == 'names':
+            if any(all(r[j] is None for r in rows) for j in range(len(names))):
+                return src                      # a column without any value: its type cannot be inferred (no frame is obtained)
+            return dict(src, via='names')
+        absent = [[j for j, v in enumerate(r) if v is None and via == 'hetero' and rng.random() < .7] for r in rows]
+        absent = [ab if len(ab) < len(names) else ab[1:] for ab in absent]      # a Row keeps at least one field
+        order = []
+        for r, ab in zip(rows, absent):
+            for n in sorted(n for j, n in enumerate(names) if j not in ab):
+                if n not in order:
+                    order.append(n)
+        if len(order) != len(names) or any(all(r[j] is None for r in rows) for j in range(len(names))):
+            return src
+        perm = [names.index(n) for n in order]
+        return {'names': order, 'types': [src['types'][j] for j in perm], 'rows': [[r[j] for j in perm] for r in rows],
+                'parts': 1, 'via': via, 'absent': [[perm.index(j) for j in ab] for ab in absent]}
 
     def fixed_cases(self, tier):
         S = G.sv
@@ -338,6 +368,13 @@ class C15(Prop):
             {'src': t3, 'ops': [{'op': 'rename', 'old': 'k', 'new': 's'}, {'op': 'dropRef', 'pos': 1}]},
             {'src': {'range': [1, 7, 2], 'parts': 3}, 'ops': [{'op': 'withColumn', 'name': 'id', 'e': {'op': 'mul', 'a': col(0), 'b': col(0)}}]},
         ]
+        het = {'names': ['a', 'b', 'c'], 'types': ['int', 'str', 'dbl'], 'rows': [[S(1), None, None], [None, S('x'), S(2.5)]], 'parts': 1,
+               'via': 'hetero', 'absent': [[2], [0]]}
+        het2 = {'names': ['b', 'a'], 'types': ['str', 'int'], 'rows': [[S('y'), None], [S('x'), S(1)]], 'parts': 1, 'via': 'hetero',
+                'absent': [[1], []]}
+        for srcx in (het, het2, dict(t3, via='rows', parts=1, names=['k', 's', 'v']), dict(t2, via='names')):
+            out.append({'src': srcx, 'ops': [{'op': 'distinct'}]})
+            out.append({'src': srcx, 'ops': [{'op': 'limit', 'n': 5}, {'op': 'select', 'items': [{'k': 'star'}]}]})
         for how in HOWS:
             out.append({'src': t3, 'ops': [{'op': 'join', 'how': how, 'on': ['k'], 'other': t2}]})
             out.append({'src': t3, 'ops': [{'op': 'join', 'how': how, 'on': ['k', 's'], 'other': t2}, {'op': 'crossJoin', 'other': t2}]})
@@ -361,6 +398,13 @@ class C15(Prop):
     # ---- execution ------------------------------------------------------------------------------
     def make_df(self, t):
         rows = [tuple(G.sv_back(v) for v in r) for r in t['rows']]
+        if t.get('via') in ('rows', 'hetero'):
+            from pysparkling.sql.types import Row
+            absent = t.get('absent') or [[] for _ in rows]
+            return self.spark.createDataFrame([Row(**{n: v for j, (n, v) in enumerate(zip(t['names'], r)) if j not in ab})
+                                               for r, ab in zip(rows, absent)])
+        if t.get('via') == 'names':
+            return self.spark.createDataFrame([tuple(r) for r in rows], list(t['names']))
         n = max(1, t.get('parts', 1))
         cuts = [len(rows) * i // n for i in range(n + 1)]
         layout = [rows[cuts[i]:cuts[i + 1]] for i in range(n)]
@@ -477,6 +521,18 @@ class C15(Prop):
             if r['names'] != prev['columns'] or rows_key(r['rows']) != rows_key(prev['rows']):
                 return Mismatch('range(): rows / names differ from the model', {'columns': prev['columns'], 'rows': prev['rows']},
                                 r, 'C15:model:range', relation='model-only')
+        if src.get('via') in ('rows', 'hetero'):
+            ctx.note('source:' + src['via'])
+            absent = src.get('absent') or [[] for _ in src['rows']]
+            # every Row in its own field order (Row(**kw) sorts its fields by name) with the fields it really has
+            rows = [sorted([n, v] for j, (n, v) in enumerate(zip(src['names'], r)) if j not in ab) for r, ab in zip(src['rows'], absent)]
+            r = ctx.driver.ask({'p': 'C15', 'fromRows': rows})
+            if r['names'] != prev['columns'] or rows_key(r['rows']) != rows_key(prev['rows']):
+                return Mismatch('createDataFrame over Row objects: columns / rows differ from the model (fields in order of first '
+                                'appearance, values placed by name, missing fields null)', {'columns': prev['columns'], 'rows': prev['rows']},
+                                r, 'C15:model:fromRows', relation='model-only')
+        elif src.get('via'):
+            ctx.note('source:' + src['via'])
         for step, op in enumerate(case['ops']):
             k = op['op']
             ctx.note('op:' + k)
